@@ -11,7 +11,7 @@ Import ListNotations.
 
 Theorem C02_pack_ref : forall (E: senv) (P: prims) (v: pv) (t: sty),
   conf E v t = true -> pk E P v (cp true t) = ref_enc E P v t.
-Proof. exact encode_is_ref. Qed.
+Proof. exact (encode_is_ref false). Qed.
 Print Assumptions C02_pack_ref.
 
 (* field positions: could_be_none = false elides the None test of an Optional; sound
@@ -19,16 +19,43 @@ Print Assumptions C02_pack_ref.
 Theorem C02_field_packer : forall (E: senv) (P: prims) (v: pv) (t: sty) (cbn: bool),
   conf E v t = true -> (cbn = false -> sty_nullable t = true -> is_none v = false) ->
   pk E P v (cp cbn t) = ref_enc E P v t.
-Proof. intros E P v t cbn. apply pk_cp_ref. Qed.
+Proof. intros E P v t cbn. apply (pk_cp_ref false). Qed.
 Print Assumptions C02_field_packer.
 
 (* non-vacuity: a nested, recursive instance conforms and is packed *)
 Definition exE : senv :=
-  [ {| sc_name := "D"; sc_fields := [ {| sf_name := "a"; sf_ty := SList SIntT; sf_default := None |};
-                                       {| sf_name := "n"; sf_ty := SOpt (SData "D"); sf_default := Some VNone |} ] |} ].
+  [ {| sc_kind := KData; sc_name := "D"; sc_fields := [ {| sf_name := "a"; sf_ty := SList SIntT; sf_default := None; sf_opt := false |};
+                                       {| sf_name := "n"; sf_ty := SOpt (SData "D"); sf_default := Some VNone; sf_opt := false |} ] |} ].
 Definition exV : pv := VObj "D" [("a", VList [VInt 1; VInt 2]); ("n", VObj "D" [("a", VList []); ("n", VNone)])].
 Example C02_nonvacuous : conf exE exV (SData "D") = true.
 Proof. vm_compute. reflexivity. Qed.
+
+(* non-vacuity for NamedTuple / TypedDict: a NamedTuple instance (with a defaulted field) holding a
+   TypedDict whose optional key comes first in the value: it conforms (in any key order), and
+   the packer emits the list form / the required-then-optional key order *)
+Definition ntE : senv :=
+  [ {| sc_kind := KNamed; sc_name := "NT"; sc_fields :=
+         [ {| sf_name := "a"; sf_ty := SIntT; sf_default := None; sf_opt := false |};
+           {| sf_name := "b"; sf_ty := STupleFix [SIntT; SIntT]; sf_default := Some (VTuple [VInt 0; VInt 0]); sf_opt := false |};
+           {| sf_name := "c"; sf_ty := STyped "TD"; sf_default := Some (VDict [(VStr "r", VList [])]); sf_opt := false |} ] |};
+    {| sc_kind := KTyped; sc_name := "TD"; sc_fields :=
+         [ {| sf_name := "o"; sf_ty := SIntT; sf_default := None; sf_opt := true |};
+           {| sf_name := "r"; sf_ty := SList SIntT; sf_default := None; sf_opt := false |} ] |} ].
+Definition ntP : prims := {|
+  p_render := fun k w => VStr w; p_parse := fun _ _ => None; p_enum_value := fun _ _ => None; p_enum_of := fun _ _ => None;
+  p_b64enc := fun b => b; p_b64dec := fun _ => None; p_int := fun _ => None; p_float := fun _ => None; p_str := fun _ => None |}.
+Definition ntV : pv :=
+  VNT "NT" [VInt 1; VTuple [VInt 2; VInt 3]; VDict [(VStr "o", VInt 9); (VStr "r", VList [VInt 4]); (VStr "zz", VNone)]].
+Definition ntV' : pv :=
+  VNT "NT" [VInt 1; VTuple [VInt 2; VInt 3]; VDict [(VStr "o", VInt 9); (VStr "r", VList [VInt 4])]].
+Example C02_named_typed_nonvacuous :
+  conf ntE ntV' (SNamed "NT") = true /\
+  conf ntE ntV (SNamed "NT") = false /\          (* an undeclared key does not conform *)
+  pk ntE ntP ntV' (cp true (SNamed "NT")) =
+    Ok (VList [VInt 1; VList [VInt 2; VInt 3]; VDict [(VStr "r", VList [VInt 4]); (VStr "o", VInt 9)]]) /\
+  pk ntE ntP (VDict [(VStr "r", VList [])]) (cp true (STyped "TD")) = Ok (VDict [(VStr "r", VList [])]) /\   (* optional key absent *)
+  (exists e, pk ntE ntP (VDict [(VStr "o", VInt 1)]) (cp true (STyped "TD")) = Exn e).                         (* required key absent *)
+Proof. repeat split; try (vm_compute; reflexivity). eexists. vm_compute. reflexivity. Qed.
 
 (* first sentence of C02: only str/int/float/bool/None/list/dict (scalar keys) come out
    whenever the schema has no Any leaf; the documented renderings being text or numbers and
@@ -41,7 +68,7 @@ Theorem C02_basic : forall (E: senv) (P: prims),
   forall (v: pv) (t: sty) (w: pv),
     conf E v t = true -> jsonable t = true -> pk E P v (cp true t) = Ok w -> basic w = true.
 Proof.
-  intros E P H1 H2 H3 v t w HC HJ Hpk. rewrite (encode_is_ref E P v t HC) in Hpk.
-  exact (ref_enc_basic E P H1 H2 H3 v t w HC HJ Hpk).
+  intros E P H1 H2 H3 v t w HC HJ Hpk. rewrite (encode_is_ref false E P v t HC) in Hpk.
+  exact (ref_enc_basic false E P H1 H2 H3 v t w HC HJ Hpk).
 Qed.
 Print Assumptions C02_basic.
